@@ -77,6 +77,7 @@ type Proc struct {
 	Fd0, Fd1, Fd2         *File // the descriptors it was started with
 	Args0                 []string
 	GOOS                  string
+	NetNS                 string // network namespace ("" = the host's)
 
 	SpawnedAt time.Duration
 	ExitedAt  time.Duration
@@ -200,6 +201,7 @@ type SpawnOpts struct {
 	Mounts []Mount
 	Chroot string
 	GOOS   string
+	NetNS  string
 }
 
 // Spawn starts program path as a new process: a goroutine tree labelled with
@@ -227,6 +229,7 @@ func (w *World) Spawn(name, path string, args, env []string, stdin, stdout, stde
 		if opts.GOOS != "" {
 			p.GOOS = opts.GOOS
 		}
+		p.NetNS = opts.NetNS
 	}
 	if stdin == nil {
 		stdin = newNullFile(p, "stdin")
